@@ -29,6 +29,7 @@ RULE = ('Hypothesis generates an abstract package (1..8 models with names in sty
         'SED sub-directories), 2..4 filters inside the SED range, an extinction law, sources planted near the models and '
         'distance settings. One evaluation = both formats convolved + three fitter variants. Non-trivial = >= 2 models and '
         'a non-identity table permutation; distinct = distinct canonical JSON.')
+RULE += (' ' + 'Also varied: stored units of SED files / cube / error columns, aperture axis stored in any order, SED files plain / .gz / in sub-directories, parameters.fits.gz, distance ranges that are a whole number of the package\'s steps up to rounding (relation: all variants use ONE distance grid). Entry "grid": the same convolved fluxes as a per-file and as a cube package fitted over such ranges (typed round numbers in pc / kpc).')
 ASSUMPTIONS = [
     'per-file vs cube convolved values: 1e-10 relative for float64 cubes, 1e-5 for float32 cubes',
     'fits of each variant are checked against the reference fitter built from the exact reference convolution '
